@@ -2,6 +2,11 @@
 
 package clients
 
+import (
+	"github.com/mimecast/dtail/internal/clients/handlers"
+	"github.com/mimecast/dtail/internal/mapr"
+)
+
 // VerifCommands exposes the command strings a client sends (makeCommands is unexported).
 func (c GrepClient) VerifCommands() []string { return c.makeCommands() }
 
@@ -13,3 +18,19 @@ func (c TailClient) VerifCommands() []string { return c.makeCommands() }
 
 // VerifCommands exposes the command strings a client sends.
 func (c MaprClient) VerifCommands() []string { return c.makeCommands() }
+
+// VerifNewMaprClient builds a mapreduce client without any connections: only what
+// makeHandler and reportResults need (query, global group set, cumulative mode).
+func VerifNewMaprClient(queryStr string, cumulative bool) (*MaprClient, error) {
+	query, err := mapr.NewQuery(queryStr)
+	if err != nil {
+		return nil, err
+	}
+	return &MaprClient{query: query, cumulative: cumulative, globalGroup: mapr.NewGlobalGroupSet()}, nil
+}
+
+// VerifHandler is makeHandler.
+func (c MaprClient) VerifHandler(server string) handlers.Handler { return c.makeHandler(server) }
+
+// VerifReport is reportResults.
+func (c *MaprClient) VerifReport(finalResult bool) { c.reportResults(finalResult) }
